@@ -20,7 +20,8 @@ RULE = ('generated tagged BAMs (1-3 contigs, random flags incl. unmapped mates /
         'tags SM DS RC RR NH XA mp NM DA XF, CIGARs with I/D/S) x random option sets over dedup, minMQ, r1only/r2only, proper_pairs_only, no_indels, '
         'no_softclips, max_base_edits, filterXA, filterMP, blacklist, divideMultimapping, doNotDivideFragments, byValue, splitFeatures, joined / '
         'single feature tags, one or two sample tags, contig selection, BED regions. Non-trivial = (BAM, option set) where at least one read is '
-        'filtered out and one is counted with a weight other than 1; distinct = distinct (BAM seed, option set).')
+        'filtered out and one is counted with a weight other than 1; distinct = distinct (BAM seed, option set).'
+        ' Plus several files in one call, numeric tags whose value is 0 as feature / sample, by-value numbers of 7+ digits, and the table written as csv / pickle and read back.')
 ASSUMPTIONS = ['the filter / weight model in this file is written from the option help texts (trusted specification)',
                'XA strings end with ";" as bwa writes them: the weight is divided over the alternative hits plus the reported one',
                'blacklist intervals are longer than a read and their edges are >=2 bp away from read ends (boundary coincidences are don\'t-care)',
